@@ -30,6 +30,7 @@ class Hist:
         self.n = 0
         self.next_id = 1
         self.uniq = 0
+        self.last_tok = {}
 
     def cfg_tok(self):
         c = dict(self.cfg)
@@ -56,6 +57,15 @@ class Hist:
         if size is None:
             size = r.choice([5, 6, 7, 20, 100, 4090, 4095, 4096, 4097, 8191, 8192, 8193, r.randrange(5, 9000)])
         size = max(size, 7)
+        if kind in ("vsh_same", "ash_same") :
+            base = kind[:3]
+            if base in self.last_tok:
+                t, tok = self.last_tok[base]
+                self.uniq += 1
+                self.ev.append("P:%d:%d:%s" % (t, 5000000 + self.uniq, tok))
+                self.n += 1
+                return
+            kind = base
         t, head = {
             "meta": (18, amf_str(b"onMetaData")),
             "meta_sdf": (18, SDF + amf_str(b"onMetaData")),
@@ -86,6 +96,8 @@ class Hist:
             tok = self.payload(head, len(head) + 2)
         else:
             tok = self.payload(head, size if kind not in ("meta", "meta_sdf", "meta_bad") else min(size, 300) + len(head))
+        if kind in ("vsh", "ash"):
+            self.last_tok[kind] = (t, tok)
         self.ev.append("P:%d:%d:%s" % (t, ts, tok))
         self.n += 1
 
@@ -98,10 +110,12 @@ class Hist:
     def leave(self, i):
         self.ev.append("L:%d" % i)
 
-    def start(self):
+    def start(self, pat=True):
         self.ev.append("I")
         if self.cfg.get("push"):
             self.ev.append("Jp:900")
+        if pat:
+            self.pat()
 
     def stop(self):
         self.ev.append("O")
@@ -122,7 +136,7 @@ CFGS = [
     dict(re=1, rg=1, rm=1, fe=1, fg=0, fm=0, tg=0, tm=0, mw=8192, rec=0),
     dict(re=1, rg=0, rm=0, fe=1, fg=2, fm=1, tg=1, tm=1, mw=1, rec=0),
     dict(re=1, rg=2, rm=0, fe=1, fg=2, fm=0, tg=3, tm=0, mw=20000, rec=1),
-    dict(re=0, rg=2, rm=0, fe=0, fg=2, fm=0, tg=0, tm=0, mw=0, rec=0),
+    dict(re=1, rg=2, rm=1, fe=1, fg=1, fm=3, tg=2, tm=1, mw=0, rec=0),
 ]
 
 STREAMS = {
@@ -133,15 +147,17 @@ STREAMS = {
     "hevc": ["meta", "hvsh", "hkey", "hinter", "aac", "hinter", "hkey", "hinter"],
     "ehevc": ["ehvsh", "ehkey", "ehinter", "ehinter", "ehkey", "ehinter"],
     "nokey": ["vsh", "inter", "inter", "aac", "inter", "inter"],
+    "hdrchange": ["meta", "vsh", "ash", "key", "aac", "inter", "vsh", "inter", "key", "inter", "ash", "aac", "meta", "inter", "key"],
+    "hdrsame": ["vsh", "ash", "key", "inter", "vsh_same", "ash_same", "key", "inter", "aac", "vsh_same", "inter"],
     "mixed": ["meta_bad", "vsh", "key", "empty", "inter", "meta", "vsh", "inter", "key", "empty", "aac"],
 }
 
 
-def gen_histories(tier, rng, push_every=6):
+def gen_histories(tier, rng, push_every=6, header_changes=False):
     """yield Case objects: joins/leaves at every index of the publish sequences"""
     kinds = ["r", "f", "w", "t"]
     count = 0
-    names = sorted(STREAMS)
+    names = sorted(n for n in STREAMS if header_changes or not n.startswith("hdr"))
     # systematic: one consumer of a kind joining at every index of each stream shape
     for ci, cfg in enumerate(CFGS):
         for sname in names:
@@ -160,8 +176,6 @@ def gen_histories(tier, rng, push_every=6):
                 for idx, kind in enumerate(seq):
                     if idx == pos:
                         mids = [h.join(k) for k in kinds]
-                    if rng.random() < 0.15:
-                        h.pat()
                     h.pub(kind, ts=idx * 40 if rng.random() < 0.7 else None)
                     if rng.random() < 0.5:
                         h.ts(kind in ("key", "hkey", "ehkey"))
@@ -194,8 +208,6 @@ def gen_histories(tier, rng, push_every=6):
                     live.append(h.join(rng.choice(kinds)))
                 elif a < 0.35 and live:
                     h.leave(live.pop(rng.randrange(len(live))))
-                elif a < 0.45:
-                    h.pat()
                 h.pub(kind)
                 if rng.random() < 0.4:
                     h.ts(rng.random() < 0.4)
